@@ -137,6 +137,8 @@ def main():
     json.dump(m, open(os.path.join(HERE, "MANIFEST.json"), "w"), indent=1)
     print("claimed:", [c["property_id"] for c in checks], "NA:", len(na))
 
-NA = {}
+NA = {
+ "C16": "solver-based checking does not reach this property: the three composers are text-building loops whose trip count and output grow with the netlist; under E1 the emitted strings become finite-domain atoms whose domains multiply at every symbolic concatenation (a run of EBLIFComposer.run on a 3-definition fixture with ONE symbolic EBLIF.type tag did not get past compose_subcircuits in 20 min), and under CrossHair a compose costs seconds per path (measured in round 0). 'Output file complete and closed' depends on CPython reference counting, which neither engine models. No weaker technique is substituted (DESIGN.md section 9.6).",
+}
 if __name__ == "__main__":
     main()
